@@ -11,6 +11,7 @@ CONSTANTS
   Planned = FALSE
   MaxPlan = 36
   InitStores <- StoresDeployed
+  LateStart = TRUE
   LogSched = TRUE
   KeepLog = TRUE
   OpMenu <- MenuConcX
